@@ -20,6 +20,7 @@ PROP = "C14"
 LEVEL = "exploration"
 BUDGET = {"quick": 400, "thorough": 5000}
 MIN_PER_SHARD = 10
+FLAKY_IS_VIOLATION = True   # see harness: non-recurrence of an oracle failure is what this property forbids
 RULE = (
     "Programs with 2-8 steps, at least half of them projective measurements / POVMs at generated layouts (no "
     "forced outcomes: the library's own sampler decides), plus a generated 'earlier activity' prefix program and "
